@@ -91,7 +91,7 @@ Record G := {
   node_labels : list (string * nat);
   in_edge_indices : list (string * nat);
   in_edge_vars : list string;                  (* scopes for which a multiple-input mapping was created *)
-  input_labels : list (string * nat);          (* written only by compilations with extrinsic inputs (not exercised) *)
+  input_labels : list (string * nat);          (* written by compilations with extrinsic inputs (create_input_node) *)
   template_cache : option tentry;              (* one YAML path *)
   module_cache : list (code * code);           (* source -> module (a module is represented by the source it was exec'd from) *)
   heap : list (nat * bool);                    (* circuit object -> does it hold an IR (`_ir is not None`) *)
@@ -310,6 +310,8 @@ Inductive hop :=
 | Compile (m : model) (vec clr inpl : bool)      (* construct m from fresh template objects; get_run_func(vectorize, clear, in_place) *)
 | Run (m : model) (vec clr inpl : bool)          (* construct; run(...) : same effect on the caches *)
 | Jac (m : model) (vec clr inpl : bool)          (* construct; get_jacobian_func(...) : same effect on the caches *)
+| CompileIn (m : model) (vec clr inpl : bool)    (* construct; get_run_func(..., inputs={A/<op>/r: array}): an input node is generated,
+                                                    its variable/operator/node names come from input_labels *)
 | FCompile (m : model) (file : string) (clr : bool)  (* construct; get_run_func(backend='fortran', file_name=file, vectorize=False) *)
 | YLoad (clr : bool)                             (* CircuitTemplate.from_yaml(p).get_run_func(vectorize=False, in_place=False, clear) *)
 | YUpd (v : Qc)                                  (* CircuitTemplate.from_yaml(p).update_var({A/op/k: v}) *)
@@ -399,6 +401,18 @@ Definition compile_obj (g : G) (o : nat) (m : model) (vec clr : bool) : G * obs 
   | _ => (g1, c_obs c)        (* the exception leaves the caches as they are; `_ir` is not assigned *)
   end.
 
+(* create_input_node (frontend/template/circuit.py): three get_unique_label calls on input_labels for an input on variable r.
+   The model records the counters (what the reset theorems and the guard are about); it does not predict the observable of a
+   compilation with inputs (OAck = "compiled") — that is compared between the real runs only. *)
+Definition bump (l : string) (t : list (string * nat)) : list (string * nat) := snd (unique_label l t).
+Definition write_input_labels (t : list (string * nat)) : list (string * nat) :=
+  bump "r_input_node" (bump "r_input_op" (bump "r_timed_input" t)).
+Definition set_inl (t : list (string * nat)) (g : G) : G :=
+  with_caches g (op_cache g) (node_cache g) (node_labels g) (in_edge_indices g) (in_edge_vars g) t.
+Definition compile_in_obj (g : G) (o : nat) (m : model) (vec clr : bool) : G * obs :=
+  let '(g1, ob) := compile_obj (set_inl (write_input_labels (input_labels g)) g) o m vec clr in
+  (g1, match ob with OOk _ _ _ _ => OAck | _ => ob end).
+
 (* Fortran backend (non-vectorized): same frontend path; then f2py and `from <file> import <file>`:
    ImportError when sys.modules[<file>] is the Python module of an uncleared default-backend compilation (D19);
    the routine of the FIRST extension module imported under <file> in this process otherwise (D29) *)
@@ -443,6 +457,8 @@ Definition step_with (fx : bool) (g : G) (o : hop) : G * obs :=
   match o with
   | Compile m vec clr _ | Run m vec clr _ | Jac m vec clr _ =>
       let '(g1, ob) := new_obj g in compile_obj (push_handle ob g1) ob m vec clr
+  | CompileIn m vec clr _ =>
+      let '(g1, ob) := new_obj g in compile_in_obj (push_handle ob g1) ob m vec clr
   | FCompile m file clr =>
       let '(g1, ob) := new_obj g in fcompile_obj (reg_file ob file (push_handle ob g1)) ob m file clr
   | YLoad clr =>
@@ -492,7 +508,8 @@ Definition Compatible (h : list hop) : bool := CachesClean h && TemplateClean h.
 Fixpoint disciplined (tmut : bool) (h : list hop) : bool :=
   match h with
   | [] => negb tmut
-  | Compile _ _ clr _ :: h' | Run _ _ clr _ :: h' | Jac _ _ clr _ :: h' | FCompile _ _ clr :: h' | YLoad clr :: h' =>
+  | Compile _ _ clr _ :: h' | Run _ _ clr _ :: h' | Jac _ _ clr _ :: h' | CompileIn _ _ clr _ :: h' | FCompile _ _ clr :: h'
+  | YLoad clr :: h' =>
       clr && disciplined tmut h'
   | YUpd _ :: h' => disciplined true h'
   | MClear _ :: h' => disciplined tmut h'
